@@ -2,6 +2,6 @@
 (set-logic ALL)
 (declare-const perm_Wallet1_Val_1 Bool)
 (assert perm_Wallet1_Val_1)
-(define-fun t123 () Bool (not perm_Wallet1_Val_1))
-(assert t123)
+(define-fun t69 () Bool (not perm_Wallet1_Val_1))
+(assert t69)
 (check-sat)
